@@ -4,6 +4,7 @@ package main
 
 import (
 	"fmt"
+	"go/token"
 	"go/types"
 	"sort"
 	"strings"
@@ -47,6 +48,9 @@ func (fr *Frame) execCall(st *State, in ssa.Instruction, cc *ssa.CallCommon) *Va
 					return fr.applyContract(st, in, ct, sig, nil, args, nil)
 				}
 			}
+			if r := fr.dynamicSplit(st, in, v, sig, args); r != nil {
+				return r
+			}
 			return fr.unknownCall(st, in, "dynamic call of "+cc.Value.Name()+" "+cc.Value.Type().String(), sig)
 		}
 	} else if mc, ok := cc.Value.(*ssa.MakeClosure); ok {
@@ -67,8 +71,11 @@ func (fr *Frame) execCall(st *State, in ssa.Instruction, cc *ssa.CallCommon) *Va
 		}
 		return fr.applyContract(st, in, ct, sig, recv, a, callee)
 	}
-	// inline closures and functions marked inline
-	if (callee.Parent() != nil || (ct != nil && ct.Inline)) && len(callee.Blocks) > 0 && fr.depth < maxInlineDepth {
+	// inline closures, functions marked inline, and small loop-free /repo helpers without a contract
+	if (callee.Parent() != nil || (ct != nil && ct.Inline) || (ct == nil && smallHelper(c.eng, callee))) && len(callee.Blocks) > 0 && fr.depth < maxInlineDepth {
+		if callee.Parent() == nil {
+			c.inlined[shortFn(key)] = true
+		}
 		return fr.inlineCall(st, in, callee, fv, args)
 	}
 	return fr.unknownCall(st, in, key, sig)
@@ -154,6 +161,15 @@ func contractVars(ct *Contract, sig *types.Signature, recv *Val, args []*Val, re
 	for i, p := range ct.Params {
 		vars[p.Name] = args[i]
 	}
+	defer func() {
+		for a, c := range ct.Aliases {
+			if v, ok := vars[c]; ok {
+				if _, clash := vars[a]; !clash {
+					vars[a] = v
+				}
+			}
+		}
+	}()
 	if results != nil {
 		if len(ct.Results) != len(results) {
 			return nil, fmt.Errorf("contract %s declares %d results, function has %d", ct.Key, len(ct.Results), len(results))
@@ -655,7 +671,7 @@ func (fr *Frame) execDeferredCall(st *State, d deferEntry) {
 // ---- frames and body execution
 
 func newFrame(c *FnCtx, fn *ssa.Function) *Frame {
-	fr := &Frame{c: c, fn: fn, vals: map[ssa.Value]*Val{}, isCell: map[*ssa.Alloc]bool{}, cuts: map[*ssa.BasicBlock]*loopCut{},
+	fr := &Frame{c: c, fn: fn, fnConsts: map[string]*ssa.Function{}, vals: map[ssa.Value]*Val{}, isCell: map[*ssa.Alloc]bool{}, cuts: map[*ssa.BasicBlock]*loopCut{},
 		allocAt: map[*ssa.Alloc]bool{}, rangeMaps: map[*ssa.Range]*Val{}}
 	fr.cfg = c.eng.cfgOf(fn)
 	if _, ok := c.ordinals[firstInstr(fn)]; !ok {
@@ -944,6 +960,12 @@ func (fr *Frame) cutLoop(h *ssa.BasicBlock, st *State) *State {
 			c.oblige(fr, st, "inv-entry", fmt.Sprintf("loop#%d/inv#%d/entry", ord, i+1), t, nil, inv.Text, true)
 		}
 	}
+	// automatic invariant of range-over-slice loops: the hidden index is >= -1
+	if c.dry == 0 {
+		for _, t := range fr.autoRangeInv(h, st) {
+			c.oblige(fr, st, "inv-entry", fmt.Sprintf("loop#%d/auto-range/entry", ord), t, nil, "hidden range index >= -1", true)
+		}
+	}
 	// 2. havoc what the loop modifies
 	ms := fr.loopModSet(h, st)
 	ns := st.clone()
@@ -1010,6 +1032,9 @@ func (fr *Frame) cutLoop(h *ssa.BasicBlock, st *State) *State {
 			}
 		}
 	}
+	for _, t := range fr.autoRangeInv(h, ns) {
+		c.addFact(ns, t)
+	}
 	// 3. assume invariants
 	cut := &loopCut{spec: spec, ordinal: ord, header: h}
 	if spec != nil {
@@ -1020,6 +1045,13 @@ func (fr *Frame) cutLoop(h *ssa.BasicBlock, st *State) *State {
 				continue
 			}
 			c.addFact(ns, t)
+		}
+		for _, pe := range spec.Progress {
+			if v, err := evalIntClause(env, pe); err == nil {
+				cut.progress = append(cut.progress, v)
+			} else {
+				c.errorf("%s loop %d progress: %v", fr.fn.Name(), ord, err)
+			}
 		}
 		if spec.Decreases != nil {
 			if v, err := evalIntClause(env, spec.Decreases); err == nil {
@@ -1049,6 +1081,11 @@ func evalIntClause(env *Env, e *Expr) (t *Term, err error) {
 func (fr *Frame) loopBack(h *ssa.BasicBlock, st *State) {
 	c := fr.c
 	cut := fr.cuts[h]
+	if cut != nil {
+		for _, t := range fr.autoRangeInv(h, st) {
+			c.oblige(fr, st, "inv-preserved", fmt.Sprintf("loop#%d/auto-range/preserved", cut.ordinal), t, nil, "hidden range index >= -1", true)
+		}
+	}
 	if cut == nil || cut.spec == nil {
 		return
 	}
@@ -1061,10 +1098,151 @@ func (fr *Frame) loopBack(h *ssa.BasicBlock, st *State) {
 		}
 		c.oblige(fr, st, "inv-preserved", fmt.Sprintf("loop#%d/inv#%d/preserved", cut.ordinal, i+1), t, nil, inv.Text, true)
 	}
+	for i, pe := range cut.spec.Progress {
+		if i < len(cut.progress) {
+			if v, err := evalIntClause(env, pe); err == nil {
+				c.oblige(fr, st, "progress", fmt.Sprintf("loop#%d/progress#%d", cut.ordinal, i+1), Lt(cut.progress[i], v), []string{"C07"}, "every iteration strictly increases "+pe.String(), false)
+			}
+		}
+	}
 	if cut.variant != nil {
 		v, err := evalIntClause(env, cut.spec.Decreases)
 		if err == nil {
 			c.oblige(fr, st, "decreases", fmt.Sprintf("loop#%d/decreases", cut.ordinal), And(Lt(v, cut.variant), Le(Num(0), cut.variant)), []string{"C07"}, cut.spec.Decreases.String(), false)
 		}
 	}
+}
+
+// autoRangeInv: for range-over-slice loops headed at h, the hidden index cell is >= -1.
+func (fr *Frame) autoRangeInv(h *ssa.BasicBlock, st *State) []*Term {
+	var out []*Term
+	if h.Comment != "rangeindex.loop" {
+		return nil
+	}
+	for _, in := range h.Instrs {
+		if u, ok := in.(*ssa.UnOp); ok {
+			if a, ok := u.X.(*ssa.Alloc); ok && a.Comment == "rangeindex" {
+				if v, ok := st.cells[a]; ok {
+					out = append(out, Le(Num(-1), v.X))
+					// and below the length the loop compares against (computed before the loop)
+					for _, in2 := range h.Instrs {
+						if b, ok := in2.(*ssa.BinOp); ok && b.Op == token.LSS {
+							if lv, ok := fr.vals[b.Y]; ok && lv.K == VScalar {
+								out = append(out, Lt(v.X, lv.X))
+							}
+						}
+					}
+				}
+				break
+			}
+		}
+	}
+	return out
+}
+
+// smallHelper: a loop-free /repo function of a few instructions (accessors, constructors).
+func smallHelper(e *Engine, fn *ssa.Function) bool {
+	if fn.Pkg == nil || !strings.HasPrefix(fn.Pkg.Pkg.Path(), "github.com/lugu/qiloop") {
+		return false
+	}
+	if len(fn.Blocks) == 0 || len(fn.Blocks) > 4 {
+		return false
+	}
+	n := 0
+	for _, b := range fn.Blocks {
+		for _, in := range b.Instrs {
+			if _, ok := in.(*ssa.DebugRef); ok {
+				continue
+			}
+			n++
+			switch in.(type) {
+			case *ssa.Go, *ssa.Defer, *ssa.Select, *ssa.Send:
+				return false
+			}
+		}
+		for _, s := range b.Succs {
+			if isBackEdge(b, s) {
+				return false
+			}
+		}
+	}
+	return n <= 40
+}
+
+// dynamicSplit: a call through a function value whose candidates are the function constants seen
+// so far in this frame (e.g. a dispatch table built from a map literal). Each candidate is applied
+// under the condition that the value equals it; the remaining case is an unknown call.
+func (fr *Frame) dynamicSplit(st *State, in ssa.Instruction, fv *Val, sig *types.Signature, args []*Val) *Val {
+	c := fr.c
+	if len(fr.fnConsts) == 0 {
+		return nil
+	}
+	var names []string
+	for n := range fr.fnConsts {
+		names = append(names, n)
+	}
+	sort.Strings(names)
+	var outs []*State
+	var results [][]*Val
+	rest := st.pc
+	for _, n := range names {
+		fn := fr.fnConsts[n]
+		if !types.Identical(fn.Signature, sig) {
+			continue
+		}
+		id := fnID(n)
+		cond := Eq(fv.X, id)
+		s2 := st.clone()
+		s2.pc = And(st.pc, cond)
+		rest = And(rest, Not(cond))
+		var r *Val
+		if ct := c.eng.contracts[n]; ct != nil && !ct.Inline {
+			r = fr.applyContract(s2, in, ct, sig, nil, args, fn)
+		} else {
+			r = fr.unknownCall(s2, in, n, sig)
+		}
+		outs = append(outs, s2)
+		results = append(results, tupleElems(r, sig))
+	}
+	if len(outs) == 0 {
+		return nil
+	}
+	s3 := st.clone()
+	s3.pc = rest
+	r3 := fr.unknownCall(s3, in, "dynamic call (no candidate matched)", sig)
+	delete(c.unknown, "dynamic call (no candidate matched)")
+	c.notes = append(c.notes, "dynamic call split over "+fmt.Sprint(len(outs))+" candidates in "+fr.fn.Name())
+	outs = append(outs, s3)
+	results = append(results, tupleElems(r3, sig))
+	m := mergeStates(outs, fr.fn.Name()+".dyn", func(t *Term) { c.addDef(t) })
+	nres := sig.Results().Len()
+	merged := make([]*Val, nres)
+	for i := 0; i < nres; i++ {
+		var acc *Val
+		for k := len(outs) - 1; k >= 0; k-- {
+			if acc == nil {
+				acc = results[k][i]
+			} else {
+				acc = iteVal(outs[k].pc, results[k][i], acc)
+			}
+		}
+		if acc.T == nil {
+			acc.T = sig.Results().At(i).Type()
+		}
+		merged[i] = acc
+	}
+	defers := st.defers
+	*st = *m
+	st.defers = defers
+	return resultVal(sig, merged)
+}
+
+func tupleElems(r *Val, sig *types.Signature) []*Val {
+	switch sig.Results().Len() {
+	case 0:
+		return nil
+	case 1:
+		return []*Val{r}
+	}
+	return r.Fs
 }
